@@ -113,6 +113,139 @@ def r2_reveal(ctx, prog, ck7):
                     r.ok(helper, site, 'returns the stored value', file=h['file'], line=h['line'])
 
 
+# --------------------------------------------------------------------------------------- R3: who may export key bytes
+CRYPTO_CALLS = {'encrypt', 'encryptInit', 'encryptUpdate', 'encryptFinal', 'wrapKey', 'hashUpdate', 'hashFinal', 'signInit', 'signUpdate', 'signFinal', 'sign', 'verify', 'verifyInit', 'verifyUpdate', 'verifyFinal',
+                'deriveKey', 'setKeyBits', 'setAttribute', 'decryptInit', 'generateRandom', 'reconstructKey', 'getKeyCheckValue', 'setD', 'setP', 'setQ', 'setPQ', 'setDP1', 'setDQ1', 'setX', 'setK', 'setEC',
+                'setN', 'setE', 'setG', 'setY', 'setPublicKey', 'setPrivateKey', 'size', 'length', 'bits', 'const_byte_str_never'}
+COPY_CALLS = {'operator=', 'operator+=', 'append', 'assign', 'insert', 'push_back', 'swap'}
+BYTE_TYPES = re.compile(r'ByteString|unsigned char|CK_BYTE|std::string|char \*|std::vector')
+
+
+def _names(e):
+    return {x['name'] for x in walk(e) if x.get('k') == 'Var'}
+
+
+def _secret_source(c, secret_vals):
+    if c.get('k') != 'Call' or short(c.get('callee')) not in ('getByteStringValue', 'getAttribute') or not c.get('args'):
+        return None
+    return secret_vals.get(tables.const_eval(c['args'][0]))
+
+
+def taint_flow(prog, f, seeds, secret_vals, depth=3, memo=None):
+    """Flow-insensitive taint closure inside f starting from the variable names in `seeds` plus the secret-attribute reads in f.
+    Returns (tainted names, sinks [(kind, text, line, function)], tainted by-reference parameters)."""
+    memo = memo if memo is not None else {}
+    key = (f['qname'], f['sig'], frozenset(seeds))
+    if key in memo:
+        return memo[key]
+    memo[key] = (set(seeds), [], set())
+    types = {pp['var']['name']: pp['type'] for pp in f.get('params', []) if pp.get('var')}
+    for n in walk(f['body']):
+        if n.get('k') == 'Decl':
+            for d in n['decls']:
+                types[d['var']['name']] = d.get('type', '')
+    t = set(seeds)
+
+    def bytes_var(v):
+        return bool(BYTE_TYPES.search(types.get(v, 'ByteString')))
+    sinks = []
+    for _ in range(8):
+        n0 = len(t)
+        for n in walk(f['body']):
+            k = n.get('k')
+            if k == 'Decl':
+                for d in n['decls']:
+                    i = d.get('init')
+                    if i is None or not bytes_var(d['var']['name']):
+                        continue
+                    if any(_secret_source(c, secret_vals) for c in calls(i)) or (_names(i) & t and not (i.get('k') == 'Call' and short(i.get('callee')) in CRYPTO_CALLS)):
+                        t.add(d['var']['name'])
+            elif k == 'Assign' and n['a'].get('k') == 'Var' and bytes_var(n['a']['name']):
+                if any(_secret_source(c, secret_vals) for c in calls(n['b'])) or (_names(n['b']) & t and not (n['b'].get('k') == 'Call' and short(n['b'].get('callee')) in CRYPTO_CALLS)):
+                    t.add(n['a']['name'])
+            elif k == 'Call':
+                sname = short(n.get('callee'))
+                args = n.get('args', [])
+                rc = n.get('recv')
+                src_in_args = any(_names(a) & t or any(_secret_source(c, secret_vals) for c in calls(a)) for a in args)
+                if sname in COPY_CALLS and rc is not None and rc.get('k') == 'Var' and src_in_args and bytes_var(rc['name']):
+                    t.add(rc['name'])
+                elif sname == 'decrypt' and len(args) == 2 and args[1].get('k') == 'Var' and (_names(args[0]) & t or any(_secret_source(c, secret_vals) for c in calls(args[0]))):
+                    t.add(args[1]['name'])          # Token::decrypt / SecureDataManager::decrypt: the plaintext of a stored secret
+                elif sname in ('memcpy', 'memmove') and len(args) == 3 and _names(args[1]) & t:
+                    dn = _names(args[0])
+                    for v in dn:
+                        if bytes_var(v):
+                            t.add(v)
+                elif n.get('own') and n.get('callee') and sname not in CRYPTO_CALLS and depth > 0 and src_in_args:
+                    # a helper of the library: propagate through its by-reference parameters
+                    for g in prog.fns(n['callee']):
+                        pn = [pp['var']['name'] if pp.get('var') else None for pp in g.get('params', [])]
+                        seeds2 = {pn[i] for i, a in enumerate(args) if i < len(pn) and pn[i] and _names(a) & t}
+                        if not seeds2:
+                            continue
+                        t2, s2, out2 = taint_flow(prog, g, seeds2, secret_vals, depth - 1, memo)
+                        sinks += [x for x in s2 if x not in sinks]
+                        for i, a in enumerate(args):
+                            if i < len(pn) and pn[i] in out2:
+                                for v in _names(a):
+                                    if bytes_var(v):
+                                        t.add(v)
+        if len(t) == n0:
+            break
+    ptr_params = {pp['var']['name'] for pp in f.get('params', []) if pp.get('var') and ('*' in pp['type'] or 'PTR' in pp['type'])}
+    for n in walk(f['body']):
+        if n.get('k') == 'Call':
+            sname = short(n.get('callee'))
+            args = n.get('args', [])
+            if sname in ('memcpy', 'memmove', 'strncpy', 'strcpy') and len(args) >= 2 and _names(args[1]) & t and _names(args[0]) & ptr_params:
+                sinks.append(('copy to the caller\'s buffer', '%s(%s, %s, ...)' % (sname, canon(args[0]), canon(args[1])), n['l'], f['qname']))
+            elif sname == 'softHSMLog' and any(_names(a) & t for a in args[4:]):
+                sinks.append(('log output', 'softHSMLog(... %s ...)' % ', '.join(canon(a) for a in args[4:] if _names(a) & t)[:80], n['l'], f['qname']))
+            elif sname in ('fwrite', 'fprintf', 'printf', 'write', 'send', 'syslog') and any(_names(a) & t for a in args):
+                sinks.append(('output call', sname, n['l'], f['qname']))
+        elif n.get('k') == 'Assign' and _names(n['b']) & t:
+            a = n['a']
+            if a.get('k') in ('Index',) or (a.get('k') == 'Un' and a.get('op') == '*'):
+                if _names(a) & ptr_params and not _names(a) & t:
+                    sinks.append(('store through a pointer parameter', canon(a), n['l'], f['qname']))
+    outp = {pp['var']['name'] for pp in f.get('params', []) if pp.get('var') and pp['var']['name'] in t and ('&' in pp['type'] or '*' in pp['type']) and not pp['type'].strip().startswith('const')}
+    memo[key] = (t, sinks, outp)
+    return memo[key]
+
+
+def r3_exports(ctx, prog):
+    r = ctx.rule('C02.R3', 'bytes read from a secret value attribute reach the caller only through P11Attribute::retrieve (never a caller buffer, a log line or an output call directly)', floor=25, engine='E5 taint')
+    secret_vals = {macro(prog, n): n for n in SECRET}
+    memo = {}
+    for f in sorted(prog.functions.values(), key=lambda f: (f['file'], f['line'])):
+        srcs = [(c, _secret_source(c, secret_vals)) for c in calls(f['body']) if _secret_source(c, secret_vals)]
+        if not srcs or f['qname'] in ('P11Attribute::retrieve',):
+            continue
+        ctx.analysed(f)
+        t, sinks, outp = taint_flow(prog, f, set(), secret_vals, 3, memo)
+        # by-reference results of this function carry the bytes on to its callers
+        up = []
+        if outp:
+            for g in prog.functions.values():
+                for c in calls(g['body']):
+                    if c.get('callee') == f['qname']:
+                        pn = [pp['var']['name'] if pp.get('var') else None for pp in f['params']]
+                        seeds = {v for i, a in enumerate(c.get('args', [])) if i < len(pn) and pn[i] in outp for v in _names(a)}
+                        if seeds:
+                            t2, s2, _ = taint_flow(prog, g, seeds, secret_vals, 2, memo)
+                            up += s2
+        allsinks = sinks + [x for x in up if x not in sinks]
+        for c, name in srcs:
+            site = 'read of %s@%d' % (name, [x for x, _ in srcs].index(c))
+            if allsinks:
+                k, txt, line, fn = allsinks[0]
+                r.violation(f['qname'], site, 'the bytes read from %s flow to a %s in %s (line %s: %s) without passing a cryptographic transformation or the reveal guard of P11Attribute::retrieve' % (name, k, fn, line, txt), file=f['file'], line=c['l'])
+            else:
+                r.ok(f['qname'], site, 'reaches only cryptographic calls, key objects and the object store (%d tainted names)' % len(t), file=f['file'], line=c['l'])
+
+
+
 def ids_of(s):
     return set(re.findall(r'[A-Za-z_][A-Za-z_0-9]*', s))
 
@@ -286,12 +419,18 @@ def run(ctx):
     prog = ctx.prog('ossl-file')
     ck7 = r1_table(ctx, prog)
     r2_reveal(ctx, prog, ck7)
+    r3_exports(ctx, prog)
     r4_oneway(ctx, prog)
     r5_wrap(ctx, prog)
     r6_inherit(ctx, prog)
 
 
 MUTANTS = [
+    dict(name='wrap-null-mechanism-copies-key', rule='C02.R3', file='src/lib/SoftHSM.cpp', after='CK_RV SoftHSM::WrapKeySym',
+         old='\tSymmetricAlgorithm* cipher = CryptoFactory::i()->getSymmetricAlgorithm(algo);\n\tif (cipher == NULL) return CKR_MECHANISM_INVALID;',
+         new='\tif (pMechanism->ulParameterLen == 0 && pMechanism->mechanism == CKM_AES_CBC) { wrapped = keydata; return CKR_OK; }\n\tSymmetricAlgorithm* cipher = CryptoFactory::i()->getSymmetricAlgorithm(algo);\n\tif (cipher == NULL) return CKR_MECHANISM_INVALID;'),
+    dict(name='digestkey-logs-key', rule='C02.R3', file='src/lib/SoftHSM.cpp', after='CK_RV SoftHSM::C_DigestKey',
+         old='\tif (session->getDigestOp()->hashUpdate(keybits) == false)', new='\tDEBUG_MSG("digesting key %s", keybits.hex_str().c_str());\n\tif (session->getDigestOp()->hashUpdate(keybits) == false)'),
     dict(name='prime1-no-ck7', rule='C02.R1', file='src/lib/P11Attributes.h', with_tus=['src/lib/P11Attributes.cpp', 'src/lib/P11Objects.cpp', 'src/lib/SoftHSM.cpp'],
          old='type = CKA_PRIME_1; checks = ck4|ck6|ck7;', new='type = CKA_PRIME_1; checks = ck4|ck6;'),
     dict(name='dsa-private-value-no-ck7', rule='C02.R1', file='src/lib/P11Objects.cpp',
